@@ -15,4 +15,4 @@ def run(ctx, proofs_ok):
         r = 10 if q else 80
         for sc in ("smove", "rename", "rotate", "self-move", "store-snapshot", "zstore-snapshot", "mset-mget"):
             plan.append((sc, r if widen < 50 else max(5, r // 4), widen))
-    conc.run_scenarios(ctx, plan, "observers of multi-key commands", txprog=True)
+    conc.run_scenarios(ctx, plan, "observers of multi-key commands", txprog=True, prog_replay=False)
